@@ -36,8 +36,9 @@ type Ctx struct {
 	cgCHA *callgraph.Graph
 	cgVTA *callgraph.Graph
 
-	funcDecls map[types.Object]*ast.FuncDecl
-	litNames  map[*ast.FuncLit]string
+	funcDecls  map[types.Object]*ast.FuncDecl
+	litNames   map[*ast.FuncLit]string
+	AliasNotes []string
 }
 
 var curCtx *Ctx
@@ -112,6 +113,7 @@ func load(repo, tier string, extraEnv ...string) (*Ctx, error) {
 	}
 	c.nameLits()
 	curCtx = c
+	c.AliasNotes = c.resolveAliases()
 	return c, nil
 }
 
@@ -250,10 +252,29 @@ func (c *Ctx) find(spec string) (*types.Func, *ast.FuncDecl) {
 }
 
 func (c *Ctx) findIn(pkg *packages.Package, spec string) (*types.Func, *ast.FuncDecl) {
+	var f *types.Func
+	var fd *ast.FuncDecl
 	if i := strings.IndexByte(spec, '.'); i >= 0 {
-		return c.lookupMethod(pkg, spec[:i], spec[i+1:])
+		f, fd = c.lookupMethod(pkg, spec[:i], spec[i+1:])
+	} else {
+		f, fd = c.lookupFunc(pkg, spec)
 	}
-	return c.lookupFunc(pkg, spec)
+	if f != nil {
+		if _, renamedAway := aliasOf[f]; !renamedAway {
+			return f, fd
+		}
+	}
+	// a renamed function recognised by its fingerprint
+	want := spec
+	if pkg != nil && pkg.PkgPath == cmdPath {
+		want = "cmd." + spec
+	}
+	if o, ok := aliasByName(want); ok {
+		if fn, ok := o.(*types.Func); ok {
+			return fn, c.funcDecls[fn]
+		}
+	}
+	return nil, nil
 }
 
 func (c *Ctx) ssaFunc(obj *types.Func) *ssa.Function {
@@ -267,6 +288,9 @@ func (c *Ctx) ssaFunc(obj *types.Func) *ssa.Function {
 func funcName(obj *types.Func) string {
 	if obj == nil {
 		return "<nil>"
+	}
+	if a, ok := aliasOf[obj]; ok {
+		return strings.TrimPrefix(a, "cmd.")
 	}
 	sig := obj.Type().(*types.Signature)
 	if r := sig.Recv(); r != nil {
